@@ -8,15 +8,15 @@ import (
 
 // TypeEntry ties a Go type to its inspector and to the parsed tree the generator saw for it.
 type TypeEntry struct {
-	Group string // "shipped" (committed testobj_ins), "fresh" (testobj regenerated now), "grammar"
-	Name  string
-	Type  reflect.Type
-	Ins   inspector.Inspector
-	XML   string // path of the XML dump
-	Node  *XNode
-	Tid   string
-	Expr  string // grammar shapes: the field / root type expression
-	Fam   string // grammar shapes: family for the distribution
+	Group   string // "shipped" (committed testobj_ins), "fresh" (testobj regenerated now), "grammar"
+	Name    string
+	Type    reflect.Type
+	Ins     inspector.Inspector
+	XML     string // path of the XML dump
+	Node    *XNode
+	Tid     string
+	Expr    string // grammar shapes: the field / root type expression
+	Fam     string // grammar shapes: family for the distribution
 	Builtin string // built-in inspectors: "strings-s", "strings-b", "samap", "static"
 }
 
@@ -36,4 +36,12 @@ func Register(group, name string, zero any, ins inspector.Inspector, xmlPath str
 // RegisterShape registers a grammar shape together with its expression and family.
 func RegisterShape(group, name string, zero any, ins inspector.Inspector, xmlPath, expr, fam string) {
 	Registry = append(Registry, &TypeEntry{Group: group, Name: name, Type: reflect.TypeOf(zero), Ins: ins, XML: xmlPath, Expr: expr, Fam: fam})
+}
+
+// ReflectOnly are declared grammar shapes without a (compiling) generated inspector: named scalars, named or
+// byte map keys, … (the open C14 classes). ReflectInspector needs no generated code, so C02 runs it over them.
+var ReflectOnly []*TypeEntry
+
+func RegisterReflectOnly(name string, zero any, xmlPath, expr, fam string) {
+	ReflectOnly = append(ReflectOnly, &TypeEntry{Group: "reflectonly", Name: name, Type: reflect.TypeOf(zero), XML: xmlPath, Expr: expr, Fam: fam})
 }
